@@ -40,7 +40,7 @@ func init() {
 				}
 				return 20_000
 			}, Run: c16Case, CaseCPU: 120,
-				Min: map[string]int64{"graphics": 4000, "relation_offset": 4000, "relation_scale": 4000, "relation_colours": 4000, "relation_drawop": 4000, "relation_src_background": 3000, "lod_ranges": 3000, "offset_zero_in_a_larger_image": 1000, "offset_rendering_expressed_as_bytes": 1500, "scaled_rendering_expressed_as_bytes": 1500, "one_renderer_for_all_renderings": 3000, "rasterizer_from_NewRasterizer": 3000, "sentinel_pixels": 100000, "rgba_images": 1000, "alpha_images": 1000,
+				Min: map[string]int64{"graphics": 4000, "relation_offset": 4000, "relation_scale": 4000, "relation_colours": 4000, "relation_drawop": 4000, "relation_src_background": 3000, "lod_ranges": 3000, "offset_zero_in_a_larger_image": 1000, "larger_image_with_negative_bounds": 2000, "offset_rendering_expressed_as_bytes": 1500, "scaled_rendering_expressed_as_bytes": 1500, "one_renderer_for_all_renderings": 3000, "rasterizer_from_NewRasterizer": 3000, "sentinel_pixels": 100000, "rgba_images": 1000, "alpha_images": 1000,
 					"sizes_above_512": 50, "gradient_paths": 2000, "skipped_first_path": 500, "nontrivial_renderings": 3000}},
 		},
 	})
@@ -477,11 +477,18 @@ func c16Case(c *run.Ctx, idx uint64) {
 		if off == (image.Point{}) {
 			c.Count("offset_zero_in_a_larger_image", 1)
 		}
-		big := newImg(rgba, image.Rectangle{Max: size.Add(off).Add(image.Pt(r.Range(1, 9), r.Range(1, 9)))})
+		// a quarter of the larger images have negative bounds (image.Rectangle
+		// allows them), and the target rectangle then often a negative corner
+		shift := image.Point{}
+		if r.Chance(1, 4) {
+			shift = image.Pt(-r.Range(1, 30), -r.Range(1, 30))
+			c.Count("larger_image_with_negative_bounds", 1)
+		}
+		big := newImg(rgba, image.Rectangle{Max: size.Add(off).Add(image.Pt(r.Range(1, 9), r.Range(1, 9)))}.Add(shift))
 		fillPattern(big, bg+1)
 		ownBg := newImg(rgba, own)
 		fillPattern(ownBg, bg)
-		rect := image.Rectangle{Min: off, Max: off.Add(size)}
+		rect := image.Rectangle{Min: off, Max: off.Add(size)}.Add(shift)
 		draw.Draw(big, rect, ownBg, image.Point{}, draw.Src)
 		bigBefore := append([]byte(nil), pixOf(big)...)
 		c16Objs.viaBytes = exact && r.Bool()
@@ -499,7 +506,7 @@ func c16Case(c *run.Ctx, idx uint64) {
 		}
 		c.Count("relation_offset", 1)
 		sub := newImg(rgba, own)
-		draw.Draw(sub, own, big, off, draw.Src)
+		draw.Draw(sub, own, big, rect.Min, draw.Src)
 		if !bytes.Equal(pixOf(sub), pixOf(base)) {
 			c.Violate("offset/pixels-differ", desc(map[string]interface{}{"offset": off.String(), "differing_bytes": diffCount(pixOf(sub), pixOf(base))}))
 			return
@@ -507,12 +514,12 @@ func c16Case(c *run.Ctx, idx uint64) {
 		after := pixOf(big)
 		bb := big.Bounds()
 		bpp := len(after) / (bb.Dx() * bb.Dy())
-		for y := 0; y < bb.Dy(); y++ {
-			for x := 0; x < bb.Dx(); x++ {
+		for y := bb.Min.Y; y < bb.Max.Y; y++ {
+			for x := bb.Min.X; x < bb.Max.X; x++ {
 				if (image.Point{X: x, Y: y}).In(rect) {
 					continue
 				}
-				i := (y*bb.Dx() + x) * bpp
+				i := ((y-bb.Min.Y)*bb.Dx() + (x - bb.Min.X)) * bpp
 				c.Count("sentinel_pixels", 1)
 				if !bytes.Equal(after[i:i+bpp], bigBefore[i:i+bpp]) {
 					c.Violate("offset/pixel-outside-rectangle-modified", desc(map[string]interface{}{"offset": off.String(), "pixel": []int{x, y}}))
